@@ -15,7 +15,7 @@ Fixpoint walk (f : Z -> snap -> list event -> list iobs -> snap -> list Z)
   match es, os with
   | e :: es', o :: os' =>
       match o with
-      | IEnd _ (Some sn) =>
+      | IEnd _ _ (Some sn) =>
           map (fun c => (k, c)) (f k prev (blk ++ [e]) (blko ++ [o]) sn)
           ++ walk f (k + 1) sn [] [] es' os'
       | _ => walk f (k + 1) prev (blk ++ [e]) (blko ++ [o]) es' os'
@@ -72,3 +72,272 @@ Definition chk_C15 (c : case) (k : Z) (prev : snap) (blk : list event) (blko : l
         then [] else [4]).
 
 Definition check_C15 := failing (run_checker chk_C15).
+
+(* ---------- settlement family: C01 C02 C09 C11 C12 ----------
+   One pass over the implementation's observations. The picture of "what is pending / who is admin"
+   is rebuilt from the implementation's OWN typed events and compared with its OWN snapshots and
+   balances; the model is not consulted.  Codes:
+     11 a record is resolved that is not pending (resolved twice / never recorded)
+     12 a pending record (by the events) is missing from the stored records     13 a stored record was never recorded / is already resolved
+     14 a settled record was not pending at the start of the block              15 treasury balance <> previous + credits - payouts
+     21 paid before creation height + payout period                             22 cancel succeeded for a request id that is not pending
+     31 record accepted for a request id that is still pending                  32 record id not larger than every earlier id of the tenant
+     33 an accepted record / cancel reported no event                           34 by-request-id lookup disagrees with the pending set
+     41 privileged message accepted from a non-admin                            42 duplicate admin accepted   43 last admin removed
+     44 admin list differs from the one the accepted messages produce           45 empty admin list or duplicates in it
+     46 a block of rejected transactions changed tenants / records / balances
+     51 records resolved in an end-block are not a prefix, in id order, of the tenant's queue
+     52 head of the queue is mature and covered, no fault injected, yet it was not paid   53 mature record without recipients not dropped *)
+Record track := mkTr {
+  tr_pend : list (Z * bytes * Z);
+  tr_maxid : list (Z * Z);
+  tr_admins : list (Z * list Z) }.
+
+Definition pend_find (p : list (Z * bytes * Z)) (tid : Z) (req : bytes) : option Z := idx_get p tid req.
+Definition pend_has_id (p : list (Z * bytes * Z)) (tid uid : Z) : bool :=
+  existsb (fun x : Z * bytes * Z => (fst (fst x) =? tid) && (snd x =? uid)) p.
+Definition pend_del_id (p : list (Z * bytes * Z)) (tid uid : Z) : list (Z * bytes * Z) :=
+  filter (fun x : Z * bytes * Z => negb ((fst (fst x) =? tid) && (snd x =? uid))) p.
+Definition admins_of (tr : track) (tid : Z) : list Z :=
+  match zlookup tid (tr_admins tr) with Some l => l | None => [] end.
+Definition tr_is_admin (tr : track) (tid sender : Z) : bool := memZ sender (admins_of tr tid).
+Definition next_tid (tr : track) : Z := wrap64 (fold_left (fun acc x => Z.max acc (fst x)) (tr_admins tr) 0 + 1).
+
+Definition init_track (c : cstate) : track :=
+  let s := c_s c in
+  mkTr (map (fun x : Z * Z * utxr => (fst (fst x), u_req (snd x), snd (fst x))) (s_utxrs s))
+       (s_last s)
+       (map (fun t => (t_id t, t_admins t)) (s_tenants s)).
+
+(* one accepted message, with the events the transaction reported still to be consumed *)
+Definition track_msg (acc : track * list iev * list Z) (m : smsg) : track * list iev * list Z :=
+  let '(tr, evs, errs) := acc in
+  let auth tid sender := if tr_is_admin tr tid sender then [] else [41] in
+  match m with
+  | MRecord sender tid req _ _ _ _ _ =>
+      match evs with
+      | (1, t, u) :: evs' =>
+          let e := auth tid sender
+                   ++ (if t =? tid then [] else [33])
+                   ++ (match pend_find (tr_pend tr) tid req with Some _ => [31] | None => [] end)
+                   ++ (match zlookup tid (tr_maxid tr) with Some mx => if mx <? u then [] else [32] | None => [] end) in
+          (mkTr ((tid, req, u) :: tr_pend tr) (zinsert tid u (tr_maxid tr)) (tr_admins tr), evs', errs ++ e)
+      | _ => (tr, evs, errs ++ [33])
+      end
+  | MCancel sender tid req =>
+      match evs with
+      | (2, t, u) :: evs' =>
+          let e := auth tid sender
+                   ++ (match pend_find (tr_pend tr) tid req with
+                       | Some u' => if (u' =? u) && (t =? tid) then [] else [22]
+                       | None => [22]
+                       end)
+                   ++ (if pend_has_id (tr_pend tr) t u then [] else [11]) in
+          (mkTr (pend_del_id (tr_pend tr) tid u) (tr_maxid tr) (tr_admins tr), evs', errs ++ e)
+      | _ => (tr, evs, errs ++ [33])
+      end
+  | MAddAdmin sender tid a =>
+      let e := auth tid sender ++ (if tr_is_admin tr tid a then [42] else []) in
+      (mkTr (tr_pend tr) (tr_maxid tr) (zinsert tid (admins_of tr tid ++ [a]) (tr_admins tr)), evs, errs ++ e)
+  | MRemoveAdmin sender tid a =>
+      let e := auth tid sender ++ (if lenZ (admins_of tr tid) <=? 1 then [43] else []) in
+      (mkTr (tr_pend tr) (tr_maxid tr) (zinsert tid (remove_first a (admins_of tr tid)) (tr_admins tr)), evs, errs ++ e)
+  | MUpdatePeriod sender tid _ => (tr, evs, errs ++ auth tid sender)
+  | MCreateTenant sender _ _ | MCreateTenantMC sender _ _ =>
+      (mkTr (tr_pend tr) (tr_maxid tr) (zinsert (next_tid tr) [sender] (tr_admins tr)), evs, errs)
+  | MDeposit _ _ _ _ => (tr, evs, errs)
+  end.
+
+Definition track_tx (tr : track) (msgs : list smsg) (evs : list iev) : track * list Z :=
+  let '(tr', rest, errs) := fold_left track_msg msgs (tr, evs, []) in
+  (tr', errs ++ match rest with [] => [] | _ => [33] end).
+
+Definition track_end_ev (acc : track * list Z) (e : iev) : track * list Z :=
+  let '(tr, errs) := acc in
+  let '(k, t, u) := e in
+  if (k =? 3) || (k =? 4) then
+    (mkTr (pend_del_id (tr_pend tr) t u) (tr_maxid tr) (tr_admins tr),
+     errs ++ (if pend_has_id (tr_pend tr) t u then [] else [11]))
+  else (tr, errs).
+
+Fixpoint nodupZ (l : list Z) : bool :=
+  match l with [] => true | x :: l' => negb (memZ x l') && nodupZ l' end.
+
+Definition snap_vs_track (tr : track) (sn : snap) : list Z :=
+  let s := sn_s sn in
+  (if forallb (fun x : Z * bytes * Z =>
+        match utxr_get (s_utxrs s) (fst (fst x)) (snd x) with
+        | Some rc => bytes_eqb (u_req rc) (snd (fst x))
+        | None => false
+        end) (tr_pend tr) then [] else [12])
+  ++ (if forallb (fun x : Z * Z * utxr =>
+        match pend_find (tr_pend tr) (fst (fst x)) (u_req (snd x)) with
+        | Some u => u =? snd (fst x)
+        | None => false
+        end) (s_utxrs s) then [] else [13])
+  ++ (if forallb (fun l : Z * bytes * option Z =>
+        option_eqb Z.eqb (pend_find (tr_pend tr) (fst (fst l)) (snd (fst l))) (snd l)) (sn_lookup sn) then [] else [34])
+  ++ (if forallb (fun t => list_eqb Z.eqb (t_admins t) (admins_of tr (t_id t))) (s_tenants s) then [] else [44])
+  ++ (if forallb (fun t => nodupZ (t_admins t) && negb (lenZ (t_admins t) =? 0)) (s_tenants s) then [] else [45]).
+
+Fixpoint bal_find (l : ledger) (a : Z) (d : bytes) : option Z :=
+  match l with
+  | [] => None
+  | (a', d', v) :: l' => if (a =? a') && bytes_eqb d d' then Some v else bal_find l' a d
+  end.
+
+(* what a settled record pays in total: the split of its recipients; a record that had no
+   recipients at the start of the block was filled by this block's tally with one owner *)
+Definition settled_total (rc : utxr) : Z :=
+  match u_recips rc with
+  | [] => u_amount rc
+  | _ => sumZ (map snd (payout_amounts rc))
+  end.
+
+Definition block_credits (prev : snap) (blk : list event) (blko : list iobs) (tid : Z) (d : bytes) : Z :=
+  sumZ (map (fun eo : event * iobs =>
+    match eo with
+    | (EvBegin envs, _) =>
+        sumZ (map (fun x => match x with
+                            | ES (EnvBankSend from to d' a) =>
+                                if (to =? treasury tid) && bytes_eqb d d' && (0 <? a)
+                                   && (a <=? bal_get (s_bal (sn_s prev)) from d') && (from <? two160) then a else 0
+                            | _ => 0
+                            end) envs)
+    | (EvTx _ msgs, ITx COk _) =>
+        sumZ (map (fun m => match m with
+                            | MDeposit _ t d' a => if (t =? tid) && bytes_eqb d d' then a else 0
+                            | _ => 0
+                            end) msgs)
+    | _ => 0
+    end) (combine blk blko)).
+
+Definition end_events_of (blko : list iobs) : list iev :=
+  match last blko IBegin with IEnd _ evs _ => evs | _ => [] end.
+Definition end_faults_of (blk : list event) : list bool :=
+  match last blk (EvBegin []) with EvEnd f => f | _ => [] end.
+Definition tx_events_of (blko : list iobs) : list iev :=
+  concat (map (fun o => match o with ITx COk evs => evs | _ => [] end) blko).
+
+Definition chk_treasury (prev : snap) (blk : list event) (blko : list iobs) (sn : snap) : list Z :=
+  let h := sn_h sn in
+  let evs := end_events_of blko in
+  let settled := filter (fun e : iev => fst (fst e) =? 3) evs in
+  (* 14 / 21 per settled record *)
+  concat (map (fun e : iev =>
+    let t := snd (fst e) in let u := snd e in
+    match utxr_get (s_utxrs (sn_s prev)) t u with
+    | None => [14]
+    | Some rc =>
+        match find_tenant (s_tenants (sn_s sn)) t with
+        | Some tn => if u_created rc + t_period tn <=? h then [] else [21]
+        | None => [14]
+        end
+    end) settled)
+  ++ concat (map (fun tn =>
+       if t_method tn =? 0 then
+         concat (map (fun d =>
+           match bal_find (s_bal (sn_s prev)) (treasury (t_id tn)) d, bal_find (s_bal (sn_s sn)) (treasury (t_id tn)) d with
+           | Some b0, Some b1 =>
+               let paid := sumZ (map (fun e : iev =>
+                              if snd (fst e) =? t_id tn then
+                                match utxr_get (s_utxrs (sn_s prev)) (t_id tn) (snd e) with
+                                | Some rc => if bytes_eqb (u_denom rc) d then settled_total rc else 0
+                                | None => 0
+                                end
+                              else 0) settled) in
+               if b1 =? b0 + block_credits prev blk blko (t_id tn) d - paid then [] else [15]
+           | _, _ => []
+           end) [t_denom tn])
+       else []) (s_tenants (sn_s sn))).
+
+Definition ids_of_tenant (evs : list iev) (kinds : list Z) (tid : Z) : list Z :=
+  map snd (filter (fun e : iev => memZ (fst (fst e)) kinds && (snd (fst e) =? tid)) evs).
+
+Definition chk_fifo (prev : snap) (blk : list event) (blko : list iobs) (sn : snap) : list Z :=
+  let h := sn_h sn in
+  let evs := end_events_of blko in
+  let faults := end_faults_of blk in
+  let cancelled := tx_events_of blko in
+  concat (map (fun tn =>
+    let tid := t_id tn in
+    let resolved_now := ids_of_tenant evs [3; 4] tid in
+    let gone := ids_of_tenant cancelled [2] tid in
+    let queue := filter (fun x : Z * utxr => negb (memZ (fst x) gone)) (utxrs_of (s_utxrs (sn_s prev)) tid) in
+    let k := length resolved_now in
+    (if list_eqb Z.eqb resolved_now (map fst (firstn k queue)) then [] else [51])
+    ++ match nth_error queue k with
+       | Some (uid, _) =>
+           match utxr_get (s_utxrs (sn_s sn)) tid uid with
+           | Some rc =>
+               if forallb negb faults && mature rc (t_period tn) h then
+                 match valid_recips (u_recips rc) with
+                 | [] => [53]
+                 | _ => if t_method tn =? 0 then
+                          match bal_find (s_bal (sn_s sn)) (treasury tid) (u_denom rc) with
+                          | Some b => if (sumZ (map snd (payout_amounts rc)) <=? b) && (u_amount rc * 4294967296 <? two256) then [52] else []
+                          | None => []
+                          end
+                        else []
+                 end
+               else []
+           | None => []
+           end
+       | None => []
+       end) (s_tenants (sn_s sn))).
+
+Definition block_all_rejected (blk : list event) (blko : list iobs) : bool :=
+  forallb (fun eo : event * iobs =>
+    match eo with
+    | (EvBegin envs, _) => match envs with [] => true | _ => false end
+    | (EvTx _ _, ITx c _) => negb (tclass_eqb c COk)
+    | (EvOTx _, _) => true
+    | (EvEnd _, IEnd _ evs _) => match evs with [] => true | _ => false end
+    | _ => false
+    end) (combine blk blko)
+  && existsb (fun e => match e with EvTx _ _ => true | _ => false end) blk.
+
+Definition chk_rejected_noop (prev : snap) (blk : list event) (blko : list iobs) (sn : snap) : list Z :=
+  if block_all_rejected blk blko then
+    if list_eqb tenant_eqb (s_tenants (sn_s prev)) (s_tenants (sn_s sn))
+       && list_eqb utxr3_eqb (s_utxrs (sn_s prev)) (s_utxrs (sn_s sn))
+       && forallb (fun b : Z * bytes * Z =>
+             match bal_find (s_bal (sn_s sn)) (fst (fst b)) (snd (fst b)) with Some v => v =? snd b | None => true end)
+           (s_bal (sn_s prev))
+    then [] else [46]
+  else [].
+
+(* the walk: tracker threaded through all events; block checks at every snapshot *)
+Fixpoint settle_walk (k : Z) (tr : track) (prev : snap) (first : bool) (blk : list event) (blko : list iobs)
+                     (es : list event) (os : list iobs) : list (Z * Z) :=
+  match es, os with
+  | e :: es', o :: os' =>
+      match e, o with
+      | EvTx _ msgs, ITx COk evs =>
+          let '(tr', errs) := track_tx tr msgs evs in
+          map (fun c => (k, c)) errs ++ settle_walk (k + 1) tr' prev first (blk ++ [e]) (blko ++ [o]) es' os'
+      | EvEnd _, IEnd _ evs (Some sn) =>
+          let '(tr', errs) := fold_left track_end_ev evs (tr, []) in
+          map (fun c => (k, c))
+              (errs ++ snap_vs_track tr' sn
+               ++ (if first then [] else chk_treasury prev (blk ++ [e]) (blko ++ [o]) sn
+                                      ++ chk_fifo prev (blk ++ [e]) (blko ++ [o]) sn
+                                      ++ chk_rejected_noop prev (blk ++ [e]) (blko ++ [o]) sn))
+          ++ settle_walk (k + 1) tr' sn false [] [] es' os'
+      | _, _ => settle_walk (k + 1) tr prev first (blk ++ [e]) (blko ++ [o]) es' os'
+      end
+  | _, _ => []
+  end.
+
+Definition settle_check (c : case) : list (Z * Z) :=
+  settle_walk 0 (init_track (cs_init c)) (snap_of_init (cs_init c)) true [] [] (cs_events c) (cs_obs c).
+
+Definition codes_in (lo hi : Z) (l : list (Z * Z)) : list (Z * Z) :=
+  filter (fun x : Z * Z => (lo <=? snd x) && (snd x <=? hi)) l.
+
+Definition check_C01 := failing (fun c => codes_in 11 19 (settle_check c)).
+Definition check_C02 := failing (fun c => codes_in 21 29 (settle_check c)).
+Definition check_C12 := failing (fun c => codes_in 31 39 (settle_check c) ++ codes_in 12 13 (settle_check c)).
+Definition check_C09 := failing (fun c => codes_in 41 49 (settle_check c)).
+Definition check_C11 := failing (fun c => codes_in 51 59 (settle_check c) ++ codes_in 11 11 (settle_check c)).
+Definition check_settle := failing settle_check.
